@@ -69,6 +69,12 @@ def quiet_logging():
     logging.getLogger("pymoca").propagate = False
     if not logging.getLogger("pymoca").handlers:
         logging.getLogger("pymoca").addHandler(logging.NullHandler())
+    try:  # the ANTLR runtime (third party, not the subject) prints every syntax error to stderr
+        from antlr4.error.ErrorListener import ConsoleErrorListener
+
+        ConsoleErrorListener.syntaxError = lambda self, *a, **k: None
+    except Exception:
+        pass
 
 
 # ----------------------------------------------------------------------------
@@ -77,7 +83,8 @@ def quiet_logging():
 
 def _worker_init(scratch, init, initargs):
     global _SCRATCH
-    _SCRATCH = scratch
+    _SCRATCH = os.path.join(scratch, "w%d" % os.getpid())  # private to this worker
+    os.makedirs(_SCRATCH, exist_ok=True)
     isolate_process()
     quiet_logging()
     if init is not None:
@@ -251,11 +258,15 @@ def load_findings(prop=None):
 
 
 def exc_sig(e):
-    """Stable description of an exception: type + innermost frame inside the subject tree."""
-    tb = traceback.extract_tb(e.__traceback__)
+    """Stable description of an exception: type + innermost frame inside the subject tree.
+    Accepts an exception or a (type name, message, StackSummary) triple."""
+    if isinstance(e, tuple):
+        name, tb = e[0], e[2]
+    else:
+        name, tb = type(e).__name__, traceback.extract_tb(e.__traceback__)
     site = ""
     for fr in reversed(tb):
         if "/pymoca/" in fr.filename or "/tools/" in fr.filename:
             site = "%s:%s" % (os.path.basename(fr.filename), fr.name)
             break
-    return "%s@%s" % (type(e).__name__, site)
+    return "%s@%s" % (name, site)
